@@ -308,7 +308,7 @@ def run(ctx):
     from mc import firstuse, pairs  # noqa: PLC0415
 
     # first use in a process before anything else touches the library (the workers must be pristine)
-    fu_ops = [["dec", pair_ops.LEAVES[0], "ANYVALUE"], ["dec", pair_ops.LEAVES[2], "typed"], ["dec", pair_ops.TREES[1], "ANYVALUE"]]
+    fu_ops = [["dec", pair_ops.LEAVES[0], "ANYVALUE"], ["dec", pair_ops.LEAVES[2], "typed"]] + ([["dec", pair_ops.TREES[1], "ANYVALUE"]] if ctx.thorough else [])  # one forked child per execution (~16 executions/s): two operations in the quick tier
     firstuse.run_part(ctx, fu_ops, "C02", 2 if ctx.thorough else 1)
     ops = [["dec", d, "typed"] for d in pair_ops.LEAVES[:4]] + [["dec", pair_ops.LEAVES[4], "ANYVALUE"]] + [["dec", d, "ANYVALUE"] for d in pair_ops.TREES]
     pair_execs = pairs.run_part(ctx, ops, "C02", 2 if ctx.thorough else 1)
